@@ -68,6 +68,7 @@ def hand_list():
                 for c in cs:
                     out.append("PUSH %s PUSH %s PUSH %s %s" % (a, b, c, op))
             out += ["PUSH %s SWAP2 %s" % (a, op), "PUSH %s %s" % (a, op), "PUSH %s SWAP1 %s" % (a, op)]
+    out.append(" ".join(["DUP1 ADD"] * 21))       # every result feeds both operands of the next operation
     out += ["NOT NOT", "NOT NOT NOT", "NOT NOT NOT NOT", "DUP1 NOT NOT", "PUSH 0 NOT NOT", "PUSH %s NOT NOT" % M256,
             "NOT NOT ISZERO", "ISZERO NOT NOT", "CALLER NOT NOT POP", "NOT ISZERO", "NOT"]
     for n in range(1, 13):
@@ -240,6 +241,13 @@ def model_runs(tier, replay=False):
 
 # --------------------------------------------------------------------------------------------
 # (D)+(V) natural runs under the budget
+
+def doubling_chain(text):
+    """the block is DUP1 <binary op> repeated at least 16 times: a term whose size doubles at every step"""
+    toks = gen.tokens(text)
+    return len(toks) >= 32 and len(toks) % 2 == 0 and all(t == "DUP1" for t in toks[0::2]) and len(set(toks[1::2])) == 1 \
+        and toks[1] in gen.BIN
+
 
 def exc_class(exc):
     """'Exception: ('Error in RBR generation', 4)' -> one class per root cause"""
@@ -479,6 +487,8 @@ def run(tier):
             continue
         clause = bverd[cs["id"]][1]
         key = clause + (": " + exc_class(cs["exc"]) if cs["stage"] else ": " + m["text"][:120])
+        if not cs["stage"] and clause in ("killed: no termination within the budget", "time budget exceeded") and doubling_chain(m["text"]):
+            key = "budget: value-doubling chain"
         g = groups.setdefault(key, {"kind": "block", "key": key, "clause": clause, "count": 0, "examples": []})
         g["count"] += 1
         g["examples"].append({"block": m["text"], "options": m["options"], "exception": cs["exc"], "wall_ms": cs["wall_ms"],
